@@ -116,7 +116,15 @@ func ruleR03c(c *Check, rule string) {
 		return
 	}
 	// tabled exception: cmds.loadDependencyOutputsIfNeeded (grog run, after the build; sequential)
-	exc := c.P.Func("cmd/cmds", "", "loadDependencyOutputsIfNeeded")
+	// located by role: the cmds function that calls Executor.LoadDependencyOutputs directly
+	var exc *ssa.Function
+	if ldo := c.P.Func("execution", "Executor", "LoadDependencyOutputs"); ldo != nil {
+		for _, f := range c.G.CallerFuncs(ldo) {
+			if engine.InPackage(f, "cmd/cmds") {
+				exc = f
+			}
+		}
+	}
 	noExc := c.G.ReachableFuncs(roots, func(f *ssa.Function) bool { return f == p.Worker || (exc != nil && f == exc) })
 	if !noExc[ex.RunCommand] {
 		c.OK(rule, key, "outside pool tasks, commands are reachable only through cmds.loadDependencyOutputsIfNeeded (`grog run` re-running dependencies after the build finished; sequential)", "-")
